@@ -452,3 +452,127 @@ def key_classes_have_default_pickling(R, tier, seed):
                 R.obl[name] = dict(n=1, ok=1 if ok else 0, seconds=0.0, backends=collections.Counter({"ast": 1}), kind="frame", func=name.split("#")[0],
                                    bad=[] if ok else [dict(path="-", line=node.lineno, verdict="refuted", instance=name,
                                                            note="class %s defines %s: pickling/copying no longer hands over the instance dictionary, and the new hook has no contract" % (node.name, hooks))])
+
+
+C01_SRC = r"""
+import hashlib
+import ecdsa
+from ecdsa import SigningKey, curves, util
+from ecdsa.ecdsa import Signature
+
+
+ENCODINGS = {"string": (util.sigencode_string, util.sigdecode_string), "strings": (util.sigencode_strings, util.sigdecode_strings),
+             "der": (util.sigencode_der, util.sigdecode_der), "string_canonize": (util.sigencode_string_canonize, util.sigdecode_string),
+             "strings_canonize": (util.sigencode_strings_canonize, util.sigdecode_strings), "der_canonize": (util.sigencode_der_canonize, util.sigdecode_der)}
+
+
+def sign_then_verify(curve_name, d, entry, enc, digest_hex, allow_truncate, k, hash_name):
+    # returns True when the signature verifies (or both sides refuse the digest with BadDigestError)
+    curve = getattr(curves, curve_name)
+    hf = getattr(hashlib, hash_name)
+    sk = SigningKey.from_secret_exponent(d, curve, hashfunc=hf)
+    vk = sk.get_verifying_key()
+    sigencode, sigdecode = ENCODINGS[enc]
+    data = bytes.fromhex(digest_hex)
+    try:
+        if entry == "sign_digest":
+            sig = sk.sign_digest(data, sigencode=sigencode, k=k, allow_truncate=allow_truncate)
+        elif entry == "sign_digest_deterministic":
+            sig = sk.sign_digest_deterministic(data, sigencode=sigencode, allow_truncate=allow_truncate)
+        elif entry == "sign":
+            sig = sk.sign(data, sigencode=sigencode, k=k, allow_truncate=allow_truncate)
+        elif entry == "sign_deterministic":
+            sig = sk.sign_deterministic(data, sigencode=sigencode)
+        else:
+            raise ValueError(entry)
+    except ecdsa.keys.BadDigestError:
+        # documented refusal: truncation not allowed and the digest (or the hash output) is longer than the order
+        dlen = len(data) if entry.startswith("sign_digest") else hf().digest_size
+        if allow_truncate is False and dlen > curve.baselen:
+            return True
+        return "BadDigestError although the digest fits / truncation is allowed"
+    try:
+        if entry in ("sign_digest", "sign_digest_deterministic"):
+            ok = vk.verify_digest(sig, data, sigdecode=sigdecode, allow_truncate=allow_truncate)
+        elif entry == "sign":
+            ok = vk.verify(sig, data, sigdecode=sigdecode, allow_truncate=allow_truncate)
+        else:
+            ok = vk.verify(sig, data, sigdecode=sigdecode, allow_truncate=True)
+    except Exception as e:
+        return "verification raised %s: %s" % (type(e).__name__, e)
+    return True if ok is True else "verify returned %r" % (ok,)
+
+
+def boundary_s(curve_name, d, k, enc):
+    # a digest integer e for which s = k^-1 (e + r d) is n - 1 (and one for s = 1): sign_number, then verify through the encoding
+    curve = getattr(curves, curve_name)
+    n = curve.order
+    sk = SigningKey.from_secret_exponent(d, curve)
+    vk = sk.get_verifying_key()
+    r = (curve.generator * k).x() % n
+    sigencode, sigdecode = ENCODINGS[enc]
+    out = []
+    for target in (n - 1, 1, (n - 1) // 2, (n + 1) // 2):
+        e = (target * k - r * d) % n
+        try:
+            r2, s2 = sk.sign_number(e, k=k)
+        except Exception as ex_:
+            out.append("sign_number raised %s" % type(ex_).__name__)
+            continue
+        blob = sigencode(r2, s2, n)
+        rr, ss = sigdecode(blob, n)
+        ok = vk.pubkey.verifies(e, Signature(rr, ss))
+        if ok is not True:
+            out.append("s = %d (target %d): verifies -> %r" % (s2, target, ok))
+    return True if not out else "; ".join(out)
+"""
+
+
+def c01_bounded(tier, seed):
+    """C01 cross-check on the real curves: every entry point x encoding x digest length around the order length x truncation
+    setting x boundary scalars; plus crafted digests that drive s to n-1, 1 and around n/2"""
+    ns = {}
+    exec(C01_SRC, ns)
+    stv, bs = ns["sign_then_verify"], ns["boundary_s"]
+    import ecdsa.curves as cv
+    rnd = random.Random(31 + seed)
+    names = ["NIST192p", "SECP160r1", "NIST521p", "SECP112r2", "NIST256p", "SECP256k1", "BRAINPOOLP160r1"]
+    if tier == "quick":
+        names = names[:5]
+    found = {}
+    n_cases = 0
+    for cn in names:
+        c = getattr(cv, cn)
+        n = c.order
+        bl = (n.bit_length() + 7) // 8
+        for d in (1, n - 1, rnd.randrange(1, n)):
+            for entry in ("sign_digest", "sign_digest_deterministic", "sign", "sign_deterministic"):
+                lens = (1, bl - 1, bl, bl + 1, 64) if entry.startswith("sign_digest") else (0, 5)
+                for ln in lens:
+                    for pat in ("ff", "00", "80"):
+                        dg = (pat * ln)
+                        if entry.startswith("sign_digest") and ln == 0:
+                            continue
+                        for trunc in ((True, False) if entry in ("sign_digest", "sign_digest_deterministic", "sign") else (True,)):
+                            for enc in (("string", "der_canonize") if tier == "quick" else ("string", "strings", "der", "string_canonize", "strings_canonize", "der_canonize")):
+                                k = None if "deterministic" in entry else rnd.choice([1, n - 1, rnd.randrange(1, n)])
+                                hn = rnd.choice(["sha1", "sha256", "sha512"])
+                                n_cases += 1
+                                try:
+                                    r = stv(cn, d, entry, enc, dg, trunc, k, hn)
+                                except Exception as e:
+                                    r = "raised %s: %s" % (type(e).__name__, e)
+                                if r is not True:
+                                    script = C01_SRC + "\nprint(sign_then_verify(%r, %d, %r, %r, %r, %r, %r, %r))\n" % (cn, d, entry, enc, dg, trunc, k, hn)
+                                    found.setdefault("lemma:C01.sign_then_verify#verifies", (dict(curve=cn, d=d, entry=entry, encoding=enc, data=dg, allow_truncate=trunc, k=k, hash=hn, __script__=script), str(r)))
+            for enc in ("string", "der", "string_canonize"):
+                k = rnd.randrange(1, n)
+                n_cases += 1
+                try:
+                    r = bs(cn, d, k, enc)
+                except Exception as e:
+                    r = "raised %s: %s" % (type(e).__name__, e)
+                if r is not True:
+                    script = C01_SRC + "\nprint(boundary_s(%r, %d, %d, %r))\n" % (cn, d, k, enc)
+                    found.setdefault("lemma:C01.sign_then_verify#verifies", (dict(curve=cn, d=d, k=k, encoding=enc, __script__=script), str(r)))
+    return n_cases, found, [dict(curves=names)]
